@@ -115,6 +115,7 @@ type response struct {
 type request struct {
 	cache int
 	kind  int
+	rev   string // the revision the cache passed to List / Watch
 	resp  chan *response
 }
 
@@ -124,10 +125,10 @@ type fake struct {
 	syncer api.Syncer
 }
 
-func (f *fake) ask(i, kind int) *response {
+func (f *fake) ask(i, kind int, rev string) *response {
 	rc := make(chan *response, 1)
 	select {
-	case f.reqs <- request{i, kind, rc}:
+	case f.reqs <- request{i, kind, rev, rc}:
 	case <-f.done:
 		return nil
 	}
@@ -158,7 +159,7 @@ func mkKey(c int, k uint64) model.ResourceKey {
 
 func (f *fake) List(ctx context.Context, l model.ListInterface, revision string) (*model.KVPairList, error) {
 	c := cacheOf(l)
-	r := f.ask(c, kList)
+	r := f.ask(c, kList, revision)
 	if r == nil {
 		return nil, context.Canceled
 	}
@@ -174,7 +175,7 @@ func (f *fake) List(ctx context.Context, l model.ListInterface, revision string)
 
 func (f *fake) Watch(ctx context.Context, l model.ListInterface, o api.WatchOptions) (api.WatchInterface, error) {
 	c := cacheOf(l)
-	r := f.ask(c, kWatch)
+	r := f.ask(c, kWatch, o.Revision)
 	if r == nil {
 		return nil, context.Canceled
 	}
@@ -193,7 +194,7 @@ func (w *fakeWatch) Stop()               {}
 func (w *fakeWatch) HasTerminated() bool { return true }
 func (w *fakeWatch) ResultChan() <-chan api.WatchEvent {
 	ch := make(chan api.WatchEvent, 1)
-	r := w.f.ask(w.c, kEvent)
+	r := w.f.ask(w.c, kEvent, "0")
 	if r == nil || r.closed {
 		close(ch)
 		return ch
@@ -692,7 +693,7 @@ func runCase(r *rng, long bool) line {
 	}
 	pre := barrier()
 
-	var steps, sample []string
+	var steps, sample, reqs []string
 	panicStep := "None"
 	tags := map[string]bool{fmt.Sprintf("caches:%d", ncaches): true}
 	var keyParts []string
@@ -748,6 +749,10 @@ func runCase(r *rng, long bool) line {
 			break
 		}
 		pending[c] = &nr
+		reqs = append(reqs, fmt.Sprintf("(%s, %s%%N)", []string{"PList", "PWatch", "PEvents"}[nr.kind], revCoq(revParse(nr.rev))))
+		if nr.kind != kEvent && nr.rev == "" {
+			tags["request-with-empty-revision"] = true
+		}
 		outs := barrier()
 		steps = append(steps, fmt.Sprintf("St %d %v %s [%s]", c, rs.tick, rs.coq, strings.Join(outs, "; ")))
 		keyParts = append(keyParts, fmt.Sprintf("%d%v%s", c, rs.tick, rs.coq))
@@ -796,7 +801,7 @@ func runCase(r *rng, long bool) line {
 	default:
 	}
 
-	coq := fmt.Sprintf("{| c_cfgs := [%s]; c_pre := [%s]; c_steps := [%s]; c_panic := %s |}", strings.Join(cfgs, "; "), strings.Join(pre, "; "), strings.Join(steps, ";\n "), panicStep)
+	coq := fmt.Sprintf("{| c_cfgs := [%s]; c_pre := [%s]; c_steps := [%s]; c_reqs := [%s]; c_panic := %s |}", strings.Join(cfgs, "; "), strings.Join(pre, "; "), strings.Join(steps, ";\n "), strings.Join(reqs, "; "), panicStep)
 	var tl []string
 	for t := range tags {
 		tl = append(tl, t)
